@@ -11,6 +11,7 @@ import (
 	"path/filepath"
 	"sort"
 	"strings"
+	"sync"
 
 	anystore "github.com/anyproto/any-store"
 
@@ -36,6 +37,7 @@ type Fixture struct {
 	settingsId string
 	tmp        string
 	nDir       int
+	mu         sync.Mutex
 	in         *interner
 }
 
@@ -91,8 +93,11 @@ func newFixture() (*Fixture, error) {
 func (fx *Fixture) cleanup() { os.RemoveAll(fx.tmp) }
 
 func (fx *Fixture) newDir(tag string) string {
+	fx.mu.Lock()
 	fx.nDir++
-	d := filepath.Join(fx.tmp, fmt.Sprintf("%s%d", tag, fx.nDir))
+	n := fx.nDir
+	fx.mu.Unlock()
+	d := filepath.Join(fx.tmp, fmt.Sprintf("%s%d", tag, n))
 	os.MkdirAll(d, 0o755)
 	return d
 }
@@ -107,8 +112,9 @@ func (fx *Fixture) collName(n string) string {
 
 // interner maps real ids (content hashes) to small stable names in order of first appearance.
 type interner struct {
-	m map[string]string
-	n int
+	mu sync.Mutex
+	m  map[string]string
+	n  int
 }
 
 func newInterner() *interner { return &interner{m: map[string]string{}} }
@@ -119,6 +125,8 @@ func (i *interner) get(id string) string {
 	if id == "" {
 		return "_"
 	}
+	i.mu.Lock()
+	defer i.mu.Unlock()
 	if s, ok := i.m[id]; ok {
 		return s
 	}
@@ -149,13 +157,13 @@ type World struct {
 	ss    spacestorage.SpaceStorage
 	acl   list.AclList
 	trees map[string]objecttree.ObjectTree
+	hung  bool // a storage call never returned: the handle cannot be closed any more
 }
 
 func anystoreConfig() *anystore.Config {
-	return &anystore.Config{
-		ReadConnections: 3,
-		SQLiteGlobalPageCachePreallocateSizeBytes: -1,
-	}
+	// the global page cache stays preallocated (any-store's default): without it every page of every
+	// short-lived connection is mmapped and unmapped separately
+	return &anystore.Config{ReadConnections: 2}
 }
 
 func (fx *Fixture) open(dir string, wrapped bool) (*World, error) {
@@ -191,7 +199,7 @@ func (w *World) attach() error {
 }
 
 func (w *World) close() {
-	if w.real != nil {
+	if w.real != nil && !w.hung {
 		w.real.Close()
 		w.real = nil
 	}
